@@ -143,6 +143,9 @@ func mut(paths ...string) []fsAcc {
 }
 
 func FSStat(p string) (os.FileInfo, error) {
+	if Cur == nil {
+		return os.Stat(p)
+	}
 	t := fsOp("stat", rd(p))
 	fi, err := os.Stat(p)
 	fsDone(t, "stat", fmt.Sprint(p, err == nil), false, []string{p}, err)
@@ -150,6 +153,9 @@ func FSStat(p string) (os.FileInfo, error) {
 }
 
 func FSLstat(p string) (os.FileInfo, error) {
+	if Cur == nil {
+		return os.Lstat(p)
+	}
 	t := fsOp("lstat", rd(p))
 	fi, err := os.Lstat(p)
 	fsDone(t, "lstat", fmt.Sprint(p, err == nil), false, []string{p}, err)
@@ -167,6 +173,9 @@ func mkdirAccs(p string) []fsAcc {
 }
 
 func FSMkdirAll(p string, m os.FileMode) error {
+	if Cur == nil {
+		return os.MkdirAll(p, m)
+	}
 	// every component may be created; in crash mode one component per step
 	if CrashMode {
 		comps := []string{}
@@ -193,6 +202,9 @@ func FSMkdirAll(p string, m os.FileMode) error {
 }
 
 func FSRename(a, b string) error {
+	if Cur == nil {
+		return os.Rename(a, b)
+	}
 	t := fsOp("rename", []fsAcc{{path: a, write: true, subtree: true}, {path: b, write: true, subtree: true}})
 	err := os.Rename(a, b)
 	fsDone(t, "rename", fmt.Sprint(a, b, err == nil), true, []string{a, b}, err)
@@ -200,6 +212,9 @@ func FSRename(a, b string) error {
 }
 
 func FSRemoveAll(p string) error {
+	if Cur == nil {
+		return os.RemoveAll(p)
+	}
 	if CrashMode {
 		// one step per removed entry, bottom-up, as rm -r does
 		ents := []string{}
@@ -223,6 +238,9 @@ func FSRemoveAll(p string) error {
 }
 
 func FSRemove(p string) error {
+	if Cur == nil {
+		return os.Remove(p)
+	}
 	t := fsOp("remove", mut(p))
 	err := os.Remove(p)
 	fsDone(t, "remove", fmt.Sprint(p, err == nil), true, []string{p}, err)
@@ -230,6 +248,9 @@ func FSRemove(p string) error {
 }
 
 func FSWriteFile(p string, d []byte, m os.FileMode) error {
+	if Cur == nil {
+		return ioutil.WriteFile(p, d, m)
+	}
 	if CrashMode {
 		// a kill between O_TRUNC and the writes is a real disk state
 		t := fsOp("write-trunc", mut(p))
@@ -251,6 +272,9 @@ func FSWriteFile(p string, d []byte, m os.FileMode) error {
 }
 
 func FSReadFile(p string) ([]byte, error) {
+	if Cur == nil {
+		return ioutil.ReadFile(p)
+	}
 	t := fsOp("read", rd(p))
 	d, err := ioutil.ReadFile(p)
 	res := ""
@@ -263,6 +287,9 @@ func FSReadFile(p string) ([]byte, error) {
 
 // FSCreate / FSOpen: the open is the visible operation; I/O on the handle is local.
 func FSCreate(p string) (*os.File, error) {
+	if Cur == nil {
+		return os.Create(p)
+	}
 	t := fsOp("create", mut(p))
 	f, err := os.Create(p)
 	fsDone(t, "create", fmt.Sprint(p, err == nil), true, []string{p}, err)
@@ -270,6 +297,9 @@ func FSCreate(p string) (*os.File, error) {
 }
 
 func FSOpen(p string) (*os.File, error) {
+	if Cur == nil {
+		return os.Open(p)
+	}
 	t := fsOp("open", rd(p))
 	f, err := os.Open(p)
 	fsDone(t, "open", fmt.Sprint(p, err == nil), false, []string{p}, err)
@@ -280,6 +310,9 @@ func FSOpen(p string) (*os.File, error) {
 var TmpRoot = os.TempDir()
 
 func FSTempFile(dir, pattern string) (*os.File, error) {
+	if Cur == nil {
+		return ioutil.TempFile(dir, pattern)
+	}
 	s := Cur
 	if dir == "" {
 		dir = TmpRoot
@@ -293,6 +326,9 @@ func FSTempFile(dir, pattern string) (*os.File, error) {
 }
 
 func FSWalk(root string, fn filepath.WalkFunc) error {
+	if Cur == nil {
+		return filepath.Walk(root, fn)
+	}
 	t := fsOp("walk", []fsAcc{{path: root, subtree: true}})
 	// materialise the listing first (one atomic read), then call fn, which may mutate via FS ops
 	type ent struct {
@@ -331,6 +367,9 @@ func FSWalk(root string, fn filepath.WalkFunc) error {
 }
 
 func FSGlob(pattern string) ([]string, error) {
+	if Cur == nil {
+		return filepath.Glob(pattern)
+	}
 	root := pattern
 	if i := strings.IndexAny(root, "*?["); i >= 0 {
 		root = filepath.Dir(root[:i] + "x")
@@ -344,6 +383,9 @@ func FSGlob(pattern string) ([]string, error) {
 // Snapshot is a visible read of the whole scratch directory (what a user program sees
 // right after Run returned).
 func Snapshot() map[string]string {
+	if Cur == nil {
+		return ReadTree(".")
+	}
 	t := fsOp("snapshot", []fsAcc{{path: ".", subtree: true}})
 	m := ReadTree(".")
 	fsDone(t, "snapshot", "", false, []string{"."}, nil)
